@@ -118,7 +118,9 @@ def worker_loop(
                                 msg.ack()
                             except Exception:
                                 pass
-                            continue
+                            # Reported as this job's failure below, so that the
+                            # caller's Future completes instead of waiting forever.
+                            raise
                     if not isinstance(pcfg, list) or not all(
                         isinstance(step, dict) for step in pcfg
                     ):
@@ -126,7 +128,10 @@ def worker_loop(
                             f"Invalid pipeline configuration received for job {job_id}: {pcfg}"
                         )
                         msg.ack()  # acknowledge to remove the message if applicable
-                        continue  # skip processing this message
+                        raise TypeError(
+                            f"Invalid pipeline configuration received for job {job_id}: "
+                            "expected a list of node mappings"
+                        )
                     data = msg.data or NoDataType()
                     context = msg.context or ContextType()
 
